@@ -8,7 +8,7 @@ import os
 import sys
 import traceback
 
-from .core import Ctx, MachineryError
+from .core import CallTimeout, Ctx, MachineryError, limited
 
 
 def main(argv=None) -> int:
@@ -25,11 +25,19 @@ def main(argv=None) -> int:
         data = json.load(open(a.replay))
         print(json.dumps(data, indent=1)[:4000])
         print("replay: re-running the check that produced this file")
+    os.environ["VERIF_TIER_RUNNING"] = a.tier
     ctx = Ctx(pid, a.tier, seed)
     ctx.only = set(a.only.split(",")) if a.only else None
     try:
         mod = importlib.import_module(f"harness.props.{pid.lower()}")
-        mod.run(ctx)
+        # overall backstop (producers that run in this process): far above any legitimate run of the tier
+        limited(lambda: mod.run(ctx), float(os.environ.get("VERIF_RUN_LIMIT", 3 * 3600 if a.tier == "quick" else 16 * 3600)))
+        return ctx.finish()
+    except CallTimeout as e:
+        # a call into the library (or a whole job of such calls) did not return within a limit far above its normal
+        # duration: reported as non-termination, with the stack of the worker at the moment the limit expired
+        tb = traceback.format_exc()
+        ctx.violation("non-termination", f"a library call did not return: {e}", {"traceback": tb[-6000:]})
         return ctx.finish()
     except MachineryError as e:
         print(f"MACHINERY-FAILURE property={pid}: {e}", file=sys.stderr, flush=True)
